@@ -134,7 +134,13 @@ impl Check for C07 {
     fn required_counters(&self, _tier: Tier) -> Vec<&'static str> {
         vec!["deliveries:pad", "deliveries:tx", "deliveries:reg", "rounds:concurrent", "rounds:single", "rounds:back-to-back", "rounds:back-to-back-on-a-new-key", "path:PaidUpload", "path:UnpaidUpdate", "path:Replication"]
     }
+    fn lane_cases(&self, tier: Tier) -> u64 {
+        tier.pick(8, 64)
+    }
     fn run_case(&self, cx: &mut Cx) {
+        if cx.index >= LANE_BASE {
+            return crate::realcases::c07_case(cx);
+        }
         let root = scratch_dir("c07");
         let (mut sim, env) = node_sim(cx, &root, 0);
         // half of the cases park the store's disk tasks at the gates, which allows "back-to-back" rounds: the next
